@@ -303,6 +303,9 @@ func genCensorTable() {
 		lf.def("structFields", "List (String × List String)", "[\n  "+strings.Join(rows, ",\n  ")+"]", astRel+": struct types with their fields in declaration order (blank fields omitted)")
 	}
 
+	// ---- static Go types of the parse tree (the typing judgement of Censor/Typing.lean) ----
+	genCensorTypes(lf)
+
 	// ---- comparators ----
 	const mlRel = "acra-censor/common/matching_logic.go"
 	if f := parseFile(mlRel); f != nil {
@@ -657,4 +660,258 @@ func argList(args []ast.Expr) string {
 		s = append(s, render(a))
 	}
 	return strings.Join(s, ",")
+}
+
+// ---- type facts ----------------------------------------------------------------------------------
+//
+// A type descriptor is (mode, name, elem):
+//   leaf   ""  ""      string, bool, integers (also named integer types), []byte – one leaf of the reflection dump
+//   struct K   ""      struct K by value            ptr K ""   *K (nil allowed by Go)
+//   iface  I   ""      interface I (I = "" for interface{})
+//   named  N   ""      named slice / named string / named bool / named []byte (the dump wraps these in a node N)
+//   list   E   m       anonymous slice whose elements have descriptor (m, E, "")
+//   opaque T   ""      anything else (types of other packages, maps, funcs)
+
+type tdesc struct{ mode, name, elem string }
+
+func (d tdesc) lean() string { return fmt.Sprintf("(%q, %q, %q)", d.mode, d.name, d.elem) }
+
+type astTypes struct {
+	structs map[string]*ast.StructType
+	ifaces  map[string]bool
+	named   map[string]ast.Expr // non-struct, non-interface named types → underlying expression
+}
+
+func collectAstTypes(f *ast.File) *astTypes {
+	t := &astTypes{structs: map[string]*ast.StructType{}, ifaces: map[string]bool{}, named: map[string]ast.Expr{}}
+	for _, d := range f.Decls {
+		gd, ok := d.(*ast.GenDecl)
+		if !ok || gd.Tok != token.TYPE {
+			continue
+		}
+		for _, sp := range gd.Specs {
+			ts := sp.(*ast.TypeSpec)
+			switch u := ts.Type.(type) {
+			case *ast.StructType:
+				t.structs[ts.Name.Name] = u
+			case *ast.InterfaceType:
+				t.ifaces[ts.Name.Name] = true
+			default:
+				t.named[ts.Name.Name] = ts.Type
+			}
+		}
+	}
+	return t
+}
+
+var intKinds = map[string]bool{"int": true, "int8": true, "int16": true, "int32": true, "int64": true, "uint": true, "uint8": true, "uint16": true, "uint32": true, "uint64": true, "byte": true}
+
+// underlying resolves a named non-struct type to its underlying type expression (following chains such as ValTuple → Exprs → []Expr).
+func (t *astTypes) underlying(name string) ast.Expr {
+	for i := 0; i < 8; i++ {
+		u, ok := t.named[name]
+		if !ok {
+			return nil
+		}
+		id, isID := u.(*ast.Ident)
+		if !isID {
+			return u
+		}
+		if _, again := t.named[id.Name]; !again {
+			return u
+		}
+		name = id.Name
+	}
+	return nil
+}
+
+func isByteSlice(e ast.Expr) bool {
+	a, ok := e.(*ast.ArrayType)
+	if !ok || a.Len != nil {
+		return false
+	}
+	id, ok := a.Elt.(*ast.Ident)
+	return ok && (id.Name == "byte" || id.Name == "uint8")
+}
+
+func (t *astTypes) desc(e ast.Expr) tdesc {
+	switch x := e.(type) {
+	case *ast.Ident:
+		switch {
+		case x.Name == "string" || x.Name == "bool" || intKinds[x.Name]:
+			return tdesc{"leaf", "", ""}
+		case t.structs[x.Name] != nil:
+			return tdesc{"struct", x.Name, ""}
+		case t.ifaces[x.Name]:
+			return tdesc{"iface", x.Name, ""}
+		}
+		if u := t.underlying(x.Name); u != nil {
+			if id, ok := u.(*ast.Ident); ok && intKinds[id.Name] {
+				return tdesc{"leaf", "", ""} // the dump prints named integers as a bare leaf
+			}
+			return tdesc{"named", x.Name, ""}
+		}
+		return tdesc{"opaque", x.Name, ""}
+	case *ast.StarExpr:
+		if id, ok := x.X.(*ast.Ident); ok && t.structs[id.Name] != nil {
+			return tdesc{"ptr", id.Name, ""}
+		}
+		return tdesc{"opaque", render(e), ""}
+	case *ast.InterfaceType:
+		if x.Methods == nil || len(x.Methods.List) == 0 {
+			return tdesc{"iface", "", ""}
+		}
+		return tdesc{"opaque", render(e), ""}
+	case *ast.ArrayType:
+		if x.Len != nil {
+			return tdesc{"opaque", render(e), ""}
+		}
+		if isByteSlice(e) {
+			return tdesc{"leaf", "", ""}
+		}
+		el := t.desc(x.Elt)
+		if el.mode == "list" || el.mode == "opaque" {
+			return tdesc{"opaque", render(e), ""}
+		}
+		return tdesc{"list", el.name, el.mode}
+	}
+	return tdesc{"opaque", render(e), ""}
+}
+
+func genCensorTypes(lf *leanFile) {
+	const astRel = "sqlparser/ast.go"
+	f := parseFile(astRel)
+	if f == nil {
+		return
+	}
+	t := collectAstTypes(f)
+
+	// field types, same order as structFields
+	var names []string
+	for n := range t.structs {
+		names = append(names, n)
+	}
+	sort.Strings(names)
+	var rows []string
+	for _, n := range names {
+		var fs []string
+		for _, fld := range t.structs[n].Fields.List {
+			d := t.desc(fld.Type)
+			if len(fld.Names) == 0 {
+				fs = append(fs, fmt.Sprintf("(%q, %s)", strings.TrimPrefix(render(fld.Type), "*"), d.lean()))
+			}
+			for _, nm := range fld.Names {
+				if nm.Name != "_" {
+					fs = append(fs, fmt.Sprintf("(%q, %s)", nm.Name, d.lean()))
+				}
+			}
+		}
+		rows = append(rows, fmt.Sprintf("(%q, [%s])", n, strings.Join(fs, ", ")))
+	}
+	lf.def("fieldTypes", "List (String × List (String × String × String × String))", "[\n  "+strings.Join(rows, ",\n  ")+"]",
+		astRel+": struct types with (field, mode, type name, element mode) in declaration order; modes: leaf (string/bool/integer/[]byte), struct K, ptr K, iface I, named N (named slice or named scalar), list E m (anonymous slice of (m, E)), opaque")
+
+	// named non-struct types
+	var nn []string
+	for n := range t.named {
+		nn = append(nn, n)
+	}
+	sort.Strings(nn)
+	var nrows []string
+	for _, n := range nn {
+		u := t.underlying(n)
+		if u == nil {
+			continue
+		}
+		if id, ok := u.(*ast.Ident); ok {
+			if id.Name == "string" || id.Name == "bool" {
+				nrows = append(nrows, fmt.Sprintf("(%q, \"scalar\", \"\", \"\")", n))
+			}
+			continue // named integers are bare leaves
+		}
+		if isByteSlice(u) {
+			nrows = append(nrows, fmt.Sprintf("(%q, \"scalar\", \"\", \"\")", n))
+			continue
+		}
+		if a, ok := u.(*ast.ArrayType); ok && a.Len == nil {
+			el := t.desc(a.Elt)
+			if el.mode == "list" || el.mode == "opaque" {
+				fail("%s: element type of %s not understood", astRel, n)
+				continue
+			}
+			nrows = append(nrows, fmt.Sprintf("(%q, \"list\", %q, %q)", n, el.name, el.mode))
+		}
+	}
+	lf.def("namedTypes", "List (String × String × String × String)", "[\n  "+strings.Join(nrows, ",\n  ")+"]",
+		astRel+": named slice types (N, list, element type name, element mode) and named string/bool/[]byte types (N, scalar) – the reflection dump wraps both in a node N")
+
+	// interfaces: implementers by marker method `func (T) i<Iface>() {}`
+	impl := map[string][]string{}
+	for _, d := range f.Decls {
+		fd, ok := d.(*ast.FuncDecl)
+		if !ok || fd.Recv == nil || len(fd.Recv.List) != 1 || !strings.HasPrefix(fd.Name.Name, "i") {
+			continue
+		}
+		in := strings.TrimPrefix(fd.Name.Name, "i")
+		if !t.ifaces[in] || fd.Type.Params.NumFields() != 0 || len(fd.Body.List) != 0 {
+			continue
+		}
+		impl[in] = append(impl[in], recvName(fd.Recv.List[0].Type))
+	}
+	var inames []string
+	for n := range impl {
+		inames = append(inames, n)
+	}
+	sort.Strings(inames)
+	var irows []string
+	for _, n := range inames {
+		irows = append(irows, fmt.Sprintf("(%q, %s)", n, strList(impl[n])))
+	}
+	if len(impl["Expr"]) < 20 || len(impl["Statement"]) < 10 {
+		fail("%s: marker methods of Expr/Statement not found", astRel)
+	}
+	lf.def("interfaces", "List (String × List String)", "[\n  "+strings.Join(irows, ",\n  ")+"]",
+		astRel+": interface → types that implement it (marker methods `func (T) i<Interface>() {}`), in source order")
+
+	// parameter type of every handle*/areEqual* function (type of `pattern`)
+	const mlRel = "acra-censor/common/matching_logic.go"
+	if mf := parseFile(mlRel); mf != nil {
+		// matching_logic.go qualifies the types with `sqlparser.`
+		strip := func(e ast.Expr) ast.Expr {
+			switch x := e.(type) {
+			case *ast.SelectorExpr:
+				return x.Sel
+			case *ast.StarExpr:
+				if s, ok := x.X.(*ast.SelectorExpr); ok {
+					return &ast.StarExpr{X: s.Sel}
+				}
+			}
+			return e
+		}
+		var prow []string
+		for _, d := range mf.Decls {
+			fd, ok := d.(*ast.FuncDecl)
+			if !ok || fd.Recv != nil || !(strings.HasPrefix(fd.Name.Name, "handle") || strings.HasPrefix(fd.Name.Name, "areEqual")) {
+				continue
+			}
+			var ptypes []ast.Expr
+			for _, p := range fd.Type.Params.List {
+				n := len(p.Names)
+				if n == 0 {
+					n = 1
+				}
+				for i := 0; i < n; i++ {
+					ptypes = append(ptypes, p.Type)
+				}
+			}
+			if len(ptypes) != 2 || render(ptypes[0]) != render(ptypes[1]) {
+				fail("%s: %s: expected (query, pattern T)", mlRel, fd.Name.Name)
+				continue
+			}
+			d := t.desc(strip(ptypes[1]))
+			prow = append(prow, fmt.Sprintf("(%q, %s)", fd.Name.Name, d.lean()))
+		}
+		lf.def("comparatorParams", "List (String × String × String × String)", "[\n  "+strings.Join(prow, ",\n  ")+"]",
+			mlRel+": static Go type (mode, name, element mode) of the two parameters of every handle*/areEqual* function")
+	}
 }
